@@ -59,7 +59,7 @@ theorem leaves_sorted (t : Node) : (leaves t).Pairwise (fun a b => a.1 < b.1) :=
 
 /-! ### hex order versus byte order -/
 
-theorem byte_lt_of_nibs {x y : UInt8} (hne : x ≠ y)
+theorem byte_lt_of_nibs {x y : UInt8} (_hne : x ≠ y)
     (h : nibHi x < nibHi y ∨ nibHi x = nibHi y ∧ nibLo x < nibLo y) : x < y := by
   rw [UInt8.lt_iff_toNat_lt]
   rcases h with h | ⟨h1, h2⟩
